@@ -163,6 +163,34 @@ func genC11(r *Rng, tier string) *C11Scn {
 			spec, name = genHugeSpec(r)
 			c.Source = r.PickS("loaded", "loaded", "reloaded")
 		}
+		if !huge && len(spec.Keys) >= 4 && r.Chance(0.07) {
+			// an offset index over a record file: int64 offsets, adjacent keys
+			// sharing a block offset (range index), read mostly through
+			// index.SlimIndex and its DataReader
+			spec.Enc = "i64"
+			run := r.PickI(1, 2, 3, 8)
+			spec.ValIDs = make([]int64, len(spec.Keys))
+			for i := range spec.ValIDs {
+				spec.ValIDs[i] = int64(i / run)
+			}
+			if r.Chance(0.7) {
+				spec.Opt[0] = -1 // default de-duplication: one leaf per block
+			}
+			if r.Chance(0.6) {
+				// built by index.NewSlimIndex itself (default options), the
+				// subject lives inside the SlimIndex it returns
+				spec.Opt = [4]int8{-1, -1, -1, -1}
+				c.Source = "built"
+			}
+			if !hammer && r.Chance(0.5) {
+				// hundreds of reads over hundreds of distinct records: whatever
+				// the index keeps about recent reads is filled, evicted, reused
+				hammer = true
+				lim.maxTasks, lim.maxUnits = 4, 400
+			}
+			name += "/offset-index"
+			mix.IdxHeavy = true
+		}
 		c.Spec, c.Gen = &spec, name
 		keys = spec.Keys
 		mix.Complete = spec.complete()
@@ -367,6 +395,11 @@ func (c *C11Scn) instances(n int) (out []*trie.SlimTrie, err error) {
 	}()
 	if c.Source == "built" {
 		for i := 0; i < n; i++ {
+			if si := c.Spec.buildIndex(); si != nil {
+				// the library's other builder; the instance lives in the index
+				out = append(out, adoptIndexHome(si))
+				continue
+			}
 			st, err := c.Spec.build()
 			if err != nil {
 				return nil, err
